@@ -806,3 +806,595 @@ Example C01_typedef_order_example :
     = [Fin 16; Fin 9; Fin 7] /\
   element_ids defs None = [1; 2; 3]%Z /\ element_idxs defs None = [0; 1; 3].
 Proof. cbv zeta. repeat split; vm_compute; reflexivity. Qed.
+
+
+(* ---- BASES-APPENDIX:BEGIN (generated by tools/gen_bases_lemmas.py; do not edit) ---- *)
+(* ==== GenAgree (unweighted counts, pass-through numeric measures): what matrix/measure.py and
+   stripe/measure.py SAY NOW ==== *)
+(* Appended by tools/gen_bases_lemmas.py (statements generated from the lemmas of Proofs/GenAgreePass.v by
+   tools/gen_bases_lemmas.py).  Gen/PassMeasureSrc.v ([mexp], read by measures._M through the wiring
+   of SecondOrderMeasures) and Gen/StripeBasesSrc.v ([bexp]) are rewritten from the source on every check
+   by harness/translate/x_bases.py.  The BASE block of unweighted_counts / means / medians / sums / stddev
+   IS the cube measure's array -- the array C01_gen_counts / C01_gen_passthrough tie to [counts_of] /
+   [passthrough_of] --, nothing is computed on the way; inserted cells are sums of counts / of sums (NaN
+   for a difference where the flags say so) and NaN for mean, median, stddev. *)
+From Coq Require String.
+From CC Require Base.MeasureExp Base.BasesExp Model.Subtotals Model.Proportions
+     Gen.PassMeasureSrc Gen.StripeBasesSrc Proofs.GenAgreeMeasTac Proofs.GenAgreeBasesTac Proofs.GenAgreePass.
+Section GenAgreePass_C01.   (* scopes and imports below end with the section *)
+Import Coq.Strings.String CC.Base.MeasureExp CC.Base.BasesExp CC.Model.Subtotals CC.Model.Proportions
+       CC.Gen.PassMeasureSrc CC.Gen.StripeBasesSrc CC.Proofs.GenAgreeMeasTac CC.Proofs.GenAgreeBasesTac
+       CC.Proofs.GenAgreePass.
+Import Coq.Lists.List.ListNotations CC.Base.XQ CC.Base.ListX.
+Local Close Scope Q_scope.
+Local Open Scope string_scope.
+Local Open Scope nat_scope.
+
+(* SecondOrderMeasures.<UnweightedCounts>.blocks: [0][0], [0][1], [1][0], [1][1] *)
+Theorem C01_gen_UnweightedCounts :
+  (match xsrc_UnweightedCounts_blocks_00 with
+  | Some e => forall nr nc rsubs csubs rd cd blk cubem cubeflag flag,
+      holds_mat (menv_mat nr nc rsubs csubs rd cd blk cubem cubeflag flag) e DR DC
+        (mnth (b_base (count_blocks nr nc rsubs csubs (cubem "unweighted_cube_counts" "counts") (cubeflag "unweighted_cube_counts" "diff_nans"))))
+  | None => True
+  end) /\
+  (match xsrc_UnweightedCounts_blocks_01 with
+  | Some e => forall nr nc rsubs csubs rd cd blk cubem cubeflag flag,
+      holds_mat (menv_mat nr nc rsubs csubs rd cd blk cubem cubeflag flag) e DR DCS
+        (mnth (b_cols (count_blocks nr nc rsubs csubs (cubem "unweighted_cube_counts" "counts") (cubeflag "unweighted_cube_counts" "diff_nans"))))
+  | None => True
+  end) /\
+  (match xsrc_UnweightedCounts_blocks_10 with
+  | Some e => forall nr nc rsubs csubs rd cd blk cubem cubeflag flag,
+      holds_mat (menv_mat nr nc rsubs csubs rd cd blk cubem cubeflag flag) e DRS DC
+        (mnth (b_rows (count_blocks nr nc rsubs csubs (cubem "unweighted_cube_counts" "counts") (cubeflag "unweighted_cube_counts" "diff_nans"))))
+  | None => True
+  end) /\
+  (match xsrc_UnweightedCounts_blocks_11 with
+  | Some e => forall nr nc rsubs csubs rd cd blk cubem cubeflag flag,
+      holds_mat (menv_mat nr nc rsubs csubs rd cd blk cubem cubeflag flag) e DRS DCS
+        (mnth (b_inter (count_blocks nr nc rsubs csubs (cubem "unweighted_cube_counts" "counts") (cubeflag "unweighted_cube_counts" "diff_nans"))))
+  | None => True
+  end).
+Proof. exact (conj gen_UnweightedCounts_blocks_00 (conj gen_UnweightedCounts_blocks_01 (conj gen_UnweightedCounts_blocks_10 gen_UnweightedCounts_blocks_11))). Qed.
+Print Assumptions C01_gen_UnweightedCounts.
+
+(* SecondOrderMeasures.<Means>.blocks: [0][0], [0][1], [1][0], [1][1] *)
+Theorem C01_gen_Means :
+  (match xsrc_Means_blocks_00 with
+  | Some e => forall nr nc rsubs csubs rd cd blk cubem cubeflag flag,
+      holds_mat (menv_mat nr nc rsubs csubs rd cd blk cubem cubeflag flag) e DR DC
+        (mnth (b_base (nan_blocks (cubem "cube_means" "means") nr nc rsubs csubs)))
+  | None => True
+  end) /\
+  (match xsrc_Means_blocks_01 with
+  | Some e => forall nr nc rsubs csubs rd cd blk cubem cubeflag flag,
+      holds_mat (menv_mat nr nc rsubs csubs rd cd blk cubem cubeflag flag) e DR DCS
+        (mnth (b_cols (nan_blocks (cubem "cube_means" "means") nr nc rsubs csubs)))
+  | None => True
+  end) /\
+  (match xsrc_Means_blocks_10 with
+  | Some e => forall nr nc rsubs csubs rd cd blk cubem cubeflag flag,
+      holds_mat (menv_mat nr nc rsubs csubs rd cd blk cubem cubeflag flag) e DRS DC
+        (mnth (b_rows (nan_blocks (cubem "cube_means" "means") nr nc rsubs csubs)))
+  | None => True
+  end) /\
+  (match xsrc_Means_blocks_11 with
+  | Some e => forall nr nc rsubs csubs rd cd blk cubem cubeflag flag,
+      holds_mat (menv_mat nr nc rsubs csubs rd cd blk cubem cubeflag flag) e DRS DCS
+        (mnth (b_inter (nan_blocks (cubem "cube_means" "means") nr nc rsubs csubs)))
+  | None => True
+  end).
+Proof. exact (conj gen_Means_blocks_00 (conj gen_Means_blocks_01 (conj gen_Means_blocks_10 gen_Means_blocks_11))). Qed.
+Print Assumptions C01_gen_Means.
+
+(* SecondOrderMeasures.<Medians>.blocks: [0][0], [0][1], [1][0], [1][1] *)
+Theorem C01_gen_Medians :
+  (match xsrc_Medians_blocks_00 with
+  | Some e => forall nr nc rsubs csubs rd cd blk cubem cubeflag flag,
+      holds_mat (menv_mat nr nc rsubs csubs rd cd blk cubem cubeflag flag) e DR DC
+        (mnth (b_base (nan_blocks (cubem "cube_medians" "medians") nr nc rsubs csubs)))
+  | None => True
+  end) /\
+  (match xsrc_Medians_blocks_01 with
+  | Some e => forall nr nc rsubs csubs rd cd blk cubem cubeflag flag,
+      holds_mat (menv_mat nr nc rsubs csubs rd cd blk cubem cubeflag flag) e DR DCS
+        (mnth (b_cols (nan_blocks (cubem "cube_medians" "medians") nr nc rsubs csubs)))
+  | None => True
+  end) /\
+  (match xsrc_Medians_blocks_10 with
+  | Some e => forall nr nc rsubs csubs rd cd blk cubem cubeflag flag,
+      holds_mat (menv_mat nr nc rsubs csubs rd cd blk cubem cubeflag flag) e DRS DC
+        (mnth (b_rows (nan_blocks (cubem "cube_medians" "medians") nr nc rsubs csubs)))
+  | None => True
+  end) /\
+  (match xsrc_Medians_blocks_11 with
+  | Some e => forall nr nc rsubs csubs rd cd blk cubem cubeflag flag,
+      holds_mat (menv_mat nr nc rsubs csubs rd cd blk cubem cubeflag flag) e DRS DCS
+        (mnth (b_inter (nan_blocks (cubem "cube_medians" "medians") nr nc rsubs csubs)))
+  | None => True
+  end).
+Proof. exact (conj gen_Medians_blocks_00 (conj gen_Medians_blocks_01 (conj gen_Medians_blocks_10 gen_Medians_blocks_11))). Qed.
+Print Assumptions C01_gen_Medians.
+
+(* SecondOrderMeasures.<Sums>.blocks: [0][0], [0][1], [1][0], [1][1] *)
+Theorem C01_gen_Sums :
+  (match xsrc_Sums_blocks_00 with
+  | Some e => forall nr nc rsubs csubs rd cd blk cubem cubeflag flag,
+      holds_mat (menv_mat nr nc rsubs csubs rd cd blk cubem cubeflag flag) e DR DC
+        (mnth (b_base (sum_blocks (cubem "cube_sum" "sums") nr nc rsubs csubs true true)))
+  | None => True
+  end) /\
+  (match xsrc_Sums_blocks_01 with
+  | Some e => forall nr nc rsubs csubs rd cd blk cubem cubeflag flag,
+      holds_mat (menv_mat nr nc rsubs csubs rd cd blk cubem cubeflag flag) e DR DCS
+        (mnth (b_cols (sum_blocks (cubem "cube_sum" "sums") nr nc rsubs csubs true true)))
+  | None => True
+  end) /\
+  (match xsrc_Sums_blocks_10 with
+  | Some e => forall nr nc rsubs csubs rd cd blk cubem cubeflag flag,
+      holds_mat (menv_mat nr nc rsubs csubs rd cd blk cubem cubeflag flag) e DRS DC
+        (mnth (b_rows (sum_blocks (cubem "cube_sum" "sums") nr nc rsubs csubs true true)))
+  | None => True
+  end) /\
+  (match xsrc_Sums_blocks_11 with
+  | Some e => forall nr nc rsubs csubs rd cd blk cubem cubeflag flag,
+      holds_mat (menv_mat nr nc rsubs csubs rd cd blk cubem cubeflag flag) e DRS DCS
+        (mnth (b_inter (sum_blocks (cubem "cube_sum" "sums") nr nc rsubs csubs true true)))
+  | None => True
+  end).
+Proof. exact (conj gen_Sums_blocks_00 (conj gen_Sums_blocks_01 (conj gen_Sums_blocks_10 gen_Sums_blocks_11))). Qed.
+Print Assumptions C01_gen_Sums.
+
+(* SecondOrderMeasures.<StdDev>.blocks: [0][0], [0][1], [1][0], [1][1] *)
+Theorem C01_gen_StdDev :
+  (match xsrc_StdDev_blocks_00 with
+  | Some e => forall nr nc rsubs csubs rd cd blk cubem cubeflag flag,
+      holds_mat (menv_mat nr nc rsubs csubs rd cd blk cubem cubeflag flag) e DR DC
+        (mnth (b_base (nan_blocks (cubem "cube_stddev" "stddev") nr nc rsubs csubs)))
+  | None => True
+  end) /\
+  (match xsrc_StdDev_blocks_01 with
+  | Some e => forall nr nc rsubs csubs rd cd blk cubem cubeflag flag,
+      holds_mat (menv_mat nr nc rsubs csubs rd cd blk cubem cubeflag flag) e DR DCS
+        (mnth (b_cols (nan_blocks (cubem "cube_stddev" "stddev") nr nc rsubs csubs)))
+  | None => True
+  end) /\
+  (match xsrc_StdDev_blocks_10 with
+  | Some e => forall nr nc rsubs csubs rd cd blk cubem cubeflag flag,
+      holds_mat (menv_mat nr nc rsubs csubs rd cd blk cubem cubeflag flag) e DRS DC
+        (mnth (b_rows (nan_blocks (cubem "cube_stddev" "stddev") nr nc rsubs csubs)))
+  | None => True
+  end) /\
+  (match xsrc_StdDev_blocks_11 with
+  | Some e => forall nr nc rsubs csubs rd cd blk cubem cubeflag flag,
+      holds_mat (menv_mat nr nc rsubs csubs rd cd blk cubem cubeflag flag) e DRS DCS
+        (mnth (b_inter (nan_blocks (cubem "cube_stddev" "stddev") nr nc rsubs csubs)))
+  | None => True
+  end).
+Proof. exact (conj gen_StdDev_blocks_00 (conj gen_StdDev_blocks_01 (conj gen_StdDev_blocks_10 gen_StdDev_blocks_11))). Qed.
+Print Assumptions C01_gen_StdDev.
+
+(* StripeMeasures.<UnweightedCounts>: base_values, subtotal_values *)
+Theorem C01_gen_stripe_UnweightedCounts :
+  (match ssrc_UnweightedCounts_base_values with
+  | Some e => forall n subs v,
+      bagrees_vec (beval (benv_strand n subs (fun c a => if String.eqb c "unweighted_cube_counts" && String.eqb a "counts" then WVec n (vnth v) else WErr)) e) n (vnth v)
+  | None => True
+  end) /\
+  (match ssrc_UnweightedCounts_subtotal_values with
+  | Some e => forall n subs v,
+      bagrees_vec (beval (benv_strand n subs (fun c a => if String.eqb c "unweighted_cube_counts" && String.eqb a "counts" then WVec n (vnth v) else WErr)) e) (List.length subs) (fun k => stripe_sum_subtotal v (nth k subs nosub))
+  | None => True
+  end).
+Proof. exact (conj gen_stripe_UnweightedCounts_base_values gen_stripe_UnweightedCounts_subtotal_values). Qed.
+Print Assumptions C01_gen_stripe_UnweightedCounts.
+
+(* StripeMeasures.<WeightedCounts>: base_values, subtotal_values *)
+Theorem C01_gen_stripe_WeightedCounts :
+  (match ssrc_WeightedCounts_base_values with
+  | Some e => forall n subs v,
+      bagrees_vec (beval (benv_strand n subs (fun c a => if String.eqb c "weighted_cube_counts" && String.eqb a "counts" then WVec n (vnth v) else WErr)) e) n (vnth v)
+  | None => True
+  end) /\
+  (match ssrc_WeightedCounts_subtotal_values with
+  | Some e => forall n subs v,
+      bagrees_vec (beval (benv_strand n subs (fun c a => if String.eqb c "weighted_cube_counts" && String.eqb a "counts" then WVec n (vnth v) else WErr)) e) (List.length subs) (fun k => stripe_sum_subtotal v (nth k subs nosub))
+  | None => True
+  end).
+Proof. exact (conj gen_stripe_WeightedCounts_base_values gen_stripe_WeightedCounts_subtotal_values). Qed.
+Print Assumptions C01_gen_stripe_WeightedCounts.
+
+(* StripeMeasures.<Means>: base_values, subtotal_values *)
+Theorem C01_gen_stripe_Means :
+  (match ssrc_Means_base_values with
+  | Some e => forall n subs v,
+      bagrees_vec (beval (benv_strand n subs (fun c a => if String.eqb c "cube_means" && String.eqb a "means" then WVec n (vnth v) else WErr)) e) n (vnth v)
+  | None => True
+  end) /\
+  (match ssrc_Means_subtotal_values with
+  | Some e => forall n subs v,
+      bagrees_vec (beval (benv_strand n subs (fun c a => if String.eqb c "cube_means" && String.eqb a "means" then WVec n (vnth v) else WErr)) e) (List.length subs) (fun _ => NaN)
+  | None => True
+  end).
+Proof. exact (conj gen_stripe_Means_base_values gen_stripe_Means_subtotal_values). Qed.
+Print Assumptions C01_gen_stripe_Means.
+
+(* StripeMeasures.<Medians>: base_values, subtotal_values *)
+Theorem C01_gen_stripe_Medians :
+  (match ssrc_Medians_base_values with
+  | Some e => forall n subs v,
+      bagrees_vec (beval (benv_strand n subs (fun c a => if String.eqb c "cube_medians" && String.eqb a "medians" then WVec n (vnth v) else WErr)) e) n (vnth v)
+  | None => True
+  end) /\
+  (match ssrc_Medians_subtotal_values with
+  | Some e => forall n subs v,
+      bagrees_vec (beval (benv_strand n subs (fun c a => if String.eqb c "cube_medians" && String.eqb a "medians" then WVec n (vnth v) else WErr)) e) (List.length subs) (fun _ => NaN)
+  | None => True
+  end).
+Proof. exact (conj gen_stripe_Medians_base_values gen_stripe_Medians_subtotal_values). Qed.
+Print Assumptions C01_gen_stripe_Medians.
+
+(* StripeMeasures.<Sums>: base_values, subtotal_values *)
+Theorem C01_gen_stripe_Sums :
+  (match ssrc_Sums_base_values with
+  | Some e => forall n subs v,
+      bagrees_vec (beval (benv_strand n subs (fun c a => if String.eqb c "cube_sum" && String.eqb a "sums" then WVec n (vnth v) else WErr)) e) n (vnth v)
+  | None => True
+  end) /\
+  (match ssrc_Sums_subtotal_values with
+  | Some e => forall n subs v,
+      bagrees_vec (beval (benv_strand n subs (fun c a => if String.eqb c "cube_sum" && String.eqb a "sums" then WVec n (vnth v) else WErr)) e) (List.length subs) (fun k => stripe_sum_subtotal v (nth k subs nosub))
+  | None => True
+  end).
+Proof. exact (conj gen_stripe_Sums_base_values gen_stripe_Sums_subtotal_values). Qed.
+Print Assumptions C01_gen_stripe_Sums.
+
+(* StripeMeasures.<StdDev>: base_values, subtotal_values *)
+Theorem C01_gen_stripe_StdDev :
+  (match ssrc_StdDev_base_values with
+  | Some e => forall n subs v,
+      bagrees_vec (beval (benv_strand n subs (fun c a => if String.eqb c "cube_stddev" && String.eqb a "stddev" then WVec n (vnth v) else WErr)) e) n (vnth v)
+  | None => True
+  end) /\
+  (match ssrc_StdDev_subtotal_values with
+  | Some e => forall n subs v,
+      bagrees_vec (beval (benv_strand n subs (fun c a => if String.eqb c "cube_stddev" && String.eqb a "stddev" then WVec n (vnth v) else WErr)) e) (List.length subs) (fun _ => NaN)
+  | None => True
+  end).
+Proof. exact (conj gen_stripe_StdDev_base_values gen_stripe_StdDev_subtotal_values). Qed.
+Print Assumptions C01_gen_stripe_StdDev.
+
+
+(* non-vacuity: the TRANSLATED strand terms run on counts [2 3 4] with the subtotals {0,2} and 2 - 1:
+   unweighted counts [6 1]; means: NaN for both *)
+Example C01_gen_pass_example :
+  let cube := fun (c a : string) => WVec 3 (vnth [Fin 2%Q; Fin 3%Q; Fin 4%Q]) in
+  let E := benv_strand 3 [mkSub [0; 2] []; mkSub [2] [1]] cube in
+  match ssrc_UnweightedCounts_subtotal_values, ssrc_Means_subtotal_values with
+  | Some c, Some m =>
+      bshape_of (beval E c) = [2] /\ bcell (beval E c) 0 0 =x= Fin 6%Q /\ bcell (beval E c) 0 1 =x= Fin 1%Q /\
+      bshape_of (beval E m) = [2] /\ bcell (beval E m) 0 0 = NaN /\ bcell (beval E m) 0 1 = NaN
+  | _, _ => True
+  end.
+Proof. vm_compute. first [exact I | repeat split; reflexivity]. Qed.
+
+End GenAgreePass_C01.
+(* ---- BASES-APPENDIX:END ---- *)
+
+(* ---- WIRING-APPENDIX:BEGIN (generated by tools/gen_wiring_props.py; do not edit) ---- *)
+From CC Require Proofs.GenAgreeWiring_C01.
+Section Wiring_C01.
+Import Coq.Lists.List Coq.ZArith.ZArith Coq.Strings.String CC.Base.WiringExp CC.Gen.WiringSrc.
+Import ListNotations.
+Local Open Scope string_scope.
+
+Theorem C01_wiring_CubePartition_ndim :
+  wsrc_CubePartition_ndim = Some (WCall (WGlobal "len") [WSelf "_dimensions"] []).
+Proof. exact Proofs.GenAgreeWiring_C01.gen_wiring_CubePartition_ndim. Qed.
+Print Assumptions C01_wiring_CubePartition_ndim.
+
+Theorem C01_wiring_CubePartition_shape :
+  wsrc_CubePartition_shape = Some (WRaise "NotImplementedError").
+Proof. exact Proofs.GenAgreeWiring_C01.gen_wiring_CubePartition_shape. Qed.
+Print Assumptions C01_wiring_CubePartition_shape.
+
+Theorem C01_wiring_CubePartition__available_measures :
+  wsrc_CubePartition__available_measures = Some (WCall (WGlobal "sorted") [WCall (WGlobal "list")
+      [WAttr (WSelf "_cube") "available_measures"] []] [("key", WLambda ["el"] (WAttr (WVar "el")
+      "name"))]).
+Proof. exact Proofs.GenAgreeWiring_C01.gen_wiring_CubePartition__available_measures. Qed.
+Print Assumptions C01_wiring_CubePartition__available_measures.
+
+Theorem C01_wiring_CubePartition__default_contents :
+  wsrc_CubePartition__default_contents = Some (WCall (WGlobal "getattr") [WVar "self"; WIndex (WDict
+      [(WAttr (WGlobal "CM") "COUNT", WStr "counts"); (WAttr (WGlobal "CM") "MEAN", WStr "means");
+      (WAttr (WGlobal "CM") "SUM", WStr "sums")]) [WIndex (WSelf "_available_measures") [WInt
+      (0)%Z]]] []).
+Proof. exact Proofs.GenAgreeWiring_C01.gen_wiring_CubePartition__default_contents. Qed.
+Print Assumptions C01_wiring_CubePartition__default_contents.
+
+Theorem C01_wiring_Slice_counts :
+  wsrc_Slice_counts = Some (w_matrix_of "weighted_counts").
+Proof. exact Proofs.GenAgreeWiring_C01.gen_wiring_Slice_counts. Qed.
+Print Assumptions C01_wiring_Slice_counts.
+
+Theorem C01_wiring_Slice_is_empty :
+  wsrc_Slice_is_empty = Some (WCall (WGlobal "any") [WComp "gen" (WCmp "==" (WVar "s") (WInt (0)%Z))
+      [(["s"], WSelf "shape", [])]] []).
+Proof. exact Proofs.GenAgreeWiring_C01.gen_wiring_Slice_is_empty. Qed.
+Print Assumptions C01_wiring_Slice_is_empty.
+
+Theorem C01_wiring_Slice_means :
+  wsrc_Slice_means = Some (WTryValueError (w_matrix_of "means") "").
+Proof. exact Proofs.GenAgreeWiring_C01.gen_wiring_Slice_means. Qed.
+Print Assumptions C01_wiring_Slice_means.
+
+Theorem C01_wiring_Slice_medians :
+  wsrc_Slice_medians = Some (WTryValueError (w_matrix_of "medians") "").
+Proof. exact Proofs.GenAgreeWiring_C01.gen_wiring_Slice_medians. Qed.
+Print Assumptions C01_wiring_Slice_medians.
+
+Theorem C01_wiring_Slice_shape :
+  wsrc_Slice_shape = Some (WAttr (WSelf "counts") "shape").
+Proof. exact Proofs.GenAgreeWiring_C01.gen_wiring_Slice_shape. Qed.
+Print Assumptions C01_wiring_Slice_shape.
+
+Theorem C01_wiring_Slice_stddev :
+  wsrc_Slice_stddev = Some (WTryValueError (w_matrix_of "stddev") "").
+Proof. exact Proofs.GenAgreeWiring_C01.gen_wiring_Slice_stddev. Qed.
+Print Assumptions C01_wiring_Slice_stddev.
+
+Theorem C01_wiring_Slice_sums :
+  wsrc_Slice_sums = Some (WTryValueError (w_matrix_of "sums") "").
+Proof. exact Proofs.GenAgreeWiring_C01.gen_wiring_Slice_sums. Qed.
+Print Assumptions C01_wiring_Slice_sums.
+
+Theorem C01_wiring_Slice_unweighted_counts :
+  wsrc_Slice_unweighted_counts = Some (w_matrix_of "unweighted_counts").
+Proof. exact Proofs.GenAgreeWiring_C01.gen_wiring_Slice_unweighted_counts. Qed.
+Print Assumptions C01_wiring_Slice_unweighted_counts.
+
+Theorem C01_wiring_Strand_weighted_counts :
+  wsrc_Strand_weighted_counts = Some (w_vector_of "weighted_counts").
+Proof. exact Proofs.GenAgreeWiring_C01.gen_wiring_Strand_weighted_counts. Qed.
+Print Assumptions C01_wiring_Strand_weighted_counts.
+
+Theorem C01_wiring_Strand_is_empty :
+  wsrc_Strand_is_empty = Some (WCall (WGlobal "any") [WComp "gen" (WCmp "==" (WVar "s") (WInt (0)%Z))
+      [(["s"], WSelf "shape", [])]] []).
+Proof. exact Proofs.GenAgreeWiring_C01.gen_wiring_Strand_is_empty. Qed.
+Print Assumptions C01_wiring_Strand_is_empty.
+
+Theorem C01_wiring_Strand_means :
+  wsrc_Strand_means = Some (WTryValueError (w_vector_of "means") "").
+Proof. exact Proofs.GenAgreeWiring_C01.gen_wiring_Strand_means. Qed.
+Print Assumptions C01_wiring_Strand_means.
+
+Theorem C01_wiring_Strand_medians :
+  wsrc_Strand_medians = Some (WTryValueError (w_vector_of "medians") "").
+Proof. exact Proofs.GenAgreeWiring_C01.gen_wiring_Strand_medians. Qed.
+Print Assumptions C01_wiring_Strand_medians.
+
+Theorem C01_wiring_Strand_shape :
+  wsrc_Strand_shape = Some (WTuple [WSelf "row_count"]).
+Proof. exact Proofs.GenAgreeWiring_C01.gen_wiring_Strand_shape. Qed.
+Print Assumptions C01_wiring_Strand_shape.
+
+Theorem C01_wiring_Strand_stddev :
+  wsrc_Strand_stddev = Some (WTryValueError (w_vector_of "stddev") "").
+Proof. exact Proofs.GenAgreeWiring_C01.gen_wiring_Strand_stddev. Qed.
+Print Assumptions C01_wiring_Strand_stddev.
+
+Theorem C01_wiring_Strand_sums :
+  wsrc_Strand_sums = Some (WTryValueError (w_vector_of "sums") "").
+Proof. exact Proofs.GenAgreeWiring_C01.gen_wiring_Strand_sums. Qed.
+Print Assumptions C01_wiring_Strand_sums.
+
+Theorem C01_wiring_Strand_unweighted_counts :
+  wsrc_Strand_unweighted_counts = Some (w_vector_of "unweighted_counts").
+Proof. exact Proofs.GenAgreeWiring_C01.gen_wiring_Strand_unweighted_counts. Qed.
+Print Assumptions C01_wiring_Strand_unweighted_counts.
+
+Theorem C01_wiring_Nub_is_empty :
+  wsrc_Nub_is_empty = Some (WIf (WCmp "<=" (WSelf "unweighted_count") (WInt (0)%Z)) (WTrue) (WCall
+      (WAttr (WGlobal "math") "isnan") [WSelf "unweighted_count"] [])).
+Proof. exact Proofs.GenAgreeWiring_C01.gen_wiring_Nub_is_empty. Qed.
+Print Assumptions C01_wiring_Nub_is_empty.
+
+Theorem C01_wiring_Nub_means :
+  wsrc_Nub_means = Some (WAttr (WSelf "_scalar") "means").
+Proof. exact Proofs.GenAgreeWiring_C01.gen_wiring_Nub_means. Qed.
+Print Assumptions C01_wiring_Nub_means.
+
+Theorem C01_wiring_Nub_unweighted_count :
+  wsrc_Nub_unweighted_count = Some (WAttr (WSelf "_cube") "unweighted_counts").
+Proof. exact Proofs.GenAgreeWiring_C01.gen_wiring_Nub_unweighted_count. Qed.
+Print Assumptions C01_wiring_Nub_unweighted_count.
+
+Theorem C01_wiring_Nub__scalar :
+  wsrc_Nub__scalar = Some (WCall (WGlobal "MeansScalar") [WAttr (WSelf "_cube") "means"; WAttr (WSelf
+      "_cube") "unweighted_counts"] []).
+Proof. exact Proofs.GenAgreeWiring_C01.gen_wiring_Nub__scalar. Qed.
+Print Assumptions C01_wiring_Nub__scalar.
+
+Theorem C01_wiring_SecondOrderMeasures_means :
+  wsrc_SecondOrderMeasures_means = Some (WCall (WGlobal "_Means") [WSelf "_dimensions"; WVar "self";
+      WSelf "_cube_measures"] []).
+Proof. exact Proofs.GenAgreeWiring_C01.gen_wiring_SecondOrderMeasures_means. Qed.
+Print Assumptions C01_wiring_SecondOrderMeasures_means.
+
+Theorem C01_wiring_SecondOrderMeasures_medians :
+  wsrc_SecondOrderMeasures_medians = Some (WCall (WGlobal "_Medians") [WSelf "_dimensions"; WVar
+      "self"; WSelf "_cube_measures"] []).
+Proof. exact Proofs.GenAgreeWiring_C01.gen_wiring_SecondOrderMeasures_medians. Qed.
+Print Assumptions C01_wiring_SecondOrderMeasures_medians.
+
+Theorem C01_wiring_SecondOrderMeasures_sums :
+  wsrc_SecondOrderMeasures_sums = Some (WCall (WGlobal "_Sums") [WSelf "_dimensions"; WVar "self";
+      WSelf "_cube_measures"] []).
+Proof. exact Proofs.GenAgreeWiring_C01.gen_wiring_SecondOrderMeasures_sums. Qed.
+Print Assumptions C01_wiring_SecondOrderMeasures_sums.
+
+Theorem C01_wiring_SecondOrderMeasures_stddev :
+  wsrc_SecondOrderMeasures_stddev = Some (WCall (WGlobal "_StdDev") [WSelf "_dimensions"; WVar "self";
+      WSelf "_cube_measures"] []).
+Proof. exact Proofs.GenAgreeWiring_C01.gen_wiring_SecondOrderMeasures_stddev. Qed.
+Print Assumptions C01_wiring_SecondOrderMeasures_stddev.
+
+Theorem C01_wiring_SecondOrderMeasures_unweighted_counts :
+  wsrc_SecondOrderMeasures_unweighted_counts = Some (WCall (WGlobal "_UnweightedCounts") [WSelf
+      "_dimensions"; WVar "self"; WSelf "_cube_measures"] []).
+Proof. exact Proofs.GenAgreeWiring_C01.gen_wiring_SecondOrderMeasures_unweighted_counts. Qed.
+Print Assumptions C01_wiring_SecondOrderMeasures_unweighted_counts.
+
+Theorem C01_wiring_SecondOrderMeasures_weighted_counts :
+  wsrc_SecondOrderMeasures_weighted_counts = Some (WCall (WGlobal "_WeightedCounts") [WSelf
+      "_dimensions"; WVar "self"; WSelf "_cube_measures"] []).
+Proof. exact Proofs.GenAgreeWiring_C01.gen_wiring_SecondOrderMeasures_weighted_counts. Qed.
+Print Assumptions C01_wiring_SecondOrderMeasures_weighted_counts.
+
+Theorem C01_wiring_BaseSecondOrderMeasure__unweighted_cube_counts :
+  wsrc_BaseSecondOrderMeasure__unweighted_cube_counts = Some (WAttr (WSelf "_cube_measures")
+      "unweighted_cube_counts").
+Proof. exact Proofs.GenAgreeWiring_C01.gen_wiring_BaseSecondOrderMeasure__unweighted_cube_counts. Qed.
+Print Assumptions C01_wiring_BaseSecondOrderMeasure__unweighted_cube_counts.
+
+Theorem C01_wiring_BaseSecondOrderMeasure__weighted_cube_counts :
+  wsrc_BaseSecondOrderMeasure__weighted_cube_counts = Some (WAttr (WSelf "_cube_measures")
+      "weighted_cube_counts").
+Proof. exact Proofs.GenAgreeWiring_C01.gen_wiring_BaseSecondOrderMeasure__weighted_cube_counts. Qed.
+Print Assumptions C01_wiring_BaseSecondOrderMeasure__weighted_cube_counts.
+
+Theorem C01_wiring_MatrixCubeMeasures_cube_means :
+  wsrc_MatrixCubeMeasures_cube_means = Some (WCall (WAttr (WGlobal "_BaseCubeMeans") "factory") [WSelf
+      "_cube"; WSelf "_dimensions"; WSelf "_slice_idx"] []).
+Proof. exact Proofs.GenAgreeWiring_C01.gen_wiring_MatrixCubeMeasures_cube_means. Qed.
+Print Assumptions C01_wiring_MatrixCubeMeasures_cube_means.
+
+Theorem C01_wiring_MatrixCubeMeasures_cube_medians :
+  wsrc_MatrixCubeMeasures_cube_medians = Some (WCall (WAttr (WGlobal "_BaseCubeMedians") "factory")
+      [WSelf "_cube"; WSelf "_dimensions"; WSelf "_slice_idx"] []).
+Proof. exact Proofs.GenAgreeWiring_C01.gen_wiring_MatrixCubeMeasures_cube_medians. Qed.
+Print Assumptions C01_wiring_MatrixCubeMeasures_cube_medians.
+
+Theorem C01_wiring_MatrixCubeMeasures_cube_sum :
+  wsrc_MatrixCubeMeasures_cube_sum = Some (WCall (WAttr (WGlobal "_BaseCubeSums") "factory") [WSelf
+      "_cube"; WSelf "_dimensions"; WSelf "_slice_idx"] []).
+Proof. exact Proofs.GenAgreeWiring_C01.gen_wiring_MatrixCubeMeasures_cube_sum. Qed.
+Print Assumptions C01_wiring_MatrixCubeMeasures_cube_sum.
+
+Theorem C01_wiring_MatrixCubeMeasures_cube_stddev :
+  wsrc_MatrixCubeMeasures_cube_stddev = Some (WCall (WAttr (WGlobal "_BaseCubeStdDev") "factory")
+      [WSelf "_cube"; WSelf "_dimensions"; WSelf "_slice_idx"] []).
+Proof. exact Proofs.GenAgreeWiring_C01.gen_wiring_MatrixCubeMeasures_cube_stddev. Qed.
+Print Assumptions C01_wiring_MatrixCubeMeasures_cube_stddev.
+
+Theorem C01_wiring_MatrixCubeMeasures_unweighted_cube_counts :
+  wsrc_MatrixCubeMeasures_unweighted_cube_counts = Some (WCall (WAttr (WGlobal "_BaseCubeCounts")
+      "factory") [WIf (WCmp "is not" (WAttr (WSelf "_cube") "unweighted_valid_counts") (WNone))
+      (WAttr (WSelf "_cube") "unweighted_valid_counts") (WAttr (WSelf "_cube") "unweighted_counts");
+      WIf (WCmp "is not" (WAttr (WSelf "_cube") "unweighted_valid_counts") (WNone)) (WTrue)
+      (WFalse); WSelf "_cube"; WSelf "_dimensions"; WSelf "_slice_idx"] []).
+Proof. exact Proofs.GenAgreeWiring_C01.gen_wiring_MatrixCubeMeasures_unweighted_cube_counts. Qed.
+Print Assumptions C01_wiring_MatrixCubeMeasures_unweighted_cube_counts.
+
+Theorem C01_wiring_MatrixCubeMeasures_weighted_cube_counts :
+  wsrc_MatrixCubeMeasures_weighted_cube_counts = Some (WCall (WAttr (WGlobal "_BaseCubeCounts")
+      "factory") [WIf (WCmp "is not" (WAttr (WSelf "_cube") "weighted_valid_counts") (WNone)) (WAttr
+      (WSelf "_cube") "weighted_valid_counts") (WAttr (WSelf "_cube") "counts"); WIf (WCmp "is not"
+      (WAttr (WSelf "_cube") "weighted_valid_counts") (WNone)) (WTrue) (WFalse); WSelf "_cube";
+      WSelf "_dimensions"; WSelf "_slice_idx"] []).
+Proof. exact Proofs.GenAgreeWiring_C01.gen_wiring_MatrixCubeMeasures_weighted_cube_counts. Qed.
+Print Assumptions C01_wiring_MatrixCubeMeasures_weighted_cube_counts.
+
+Theorem C01_wiring_StripeMeasures_means :
+  wsrc_StripeMeasures_means = Some (WCall (WGlobal "_Means") [WSelf "_rows_dimension"; WVar "self";
+      WSelf "_cube_measures"] []).
+Proof. exact Proofs.GenAgreeWiring_C01.gen_wiring_StripeMeasures_means. Qed.
+Print Assumptions C01_wiring_StripeMeasures_means.
+
+Theorem C01_wiring_StripeMeasures_medians :
+  wsrc_StripeMeasures_medians = Some (WCall (WGlobal "_Medians") [WSelf "_rows_dimension"; WVar
+      "self"; WSelf "_cube_measures"] []).
+Proof. exact Proofs.GenAgreeWiring_C01.gen_wiring_StripeMeasures_medians. Qed.
+Print Assumptions C01_wiring_StripeMeasures_medians.
+
+Theorem C01_wiring_StripeMeasures_stddev :
+  wsrc_StripeMeasures_stddev = Some (WCall (WGlobal "_StdDev") [WSelf "_rows_dimension"; WVar "self";
+      WSelf "_cube_measures"] []).
+Proof. exact Proofs.GenAgreeWiring_C01.gen_wiring_StripeMeasures_stddev. Qed.
+Print Assumptions C01_wiring_StripeMeasures_stddev.
+
+Theorem C01_wiring_StripeMeasures_sums :
+  wsrc_StripeMeasures_sums = Some (WCall (WGlobal "_Sums") [WSelf "_rows_dimension"; WVar "self";
+      WSelf "_cube_measures"] []).
+Proof. exact Proofs.GenAgreeWiring_C01.gen_wiring_StripeMeasures_sums. Qed.
+Print Assumptions C01_wiring_StripeMeasures_sums.
+
+Theorem C01_wiring_StripeMeasures_unweighted_counts :
+  wsrc_StripeMeasures_unweighted_counts = Some (WCall (WGlobal "_UnweightedCounts") [WSelf
+      "_rows_dimension"; WVar "self"; WSelf "_cube_measures"] []).
+Proof. exact Proofs.GenAgreeWiring_C01.gen_wiring_StripeMeasures_unweighted_counts. Qed.
+Print Assumptions C01_wiring_StripeMeasures_unweighted_counts.
+
+Theorem C01_wiring_StripeMeasures_weighted_counts :
+  wsrc_StripeMeasures_weighted_counts = Some (WCall (WGlobal "_WeightedCounts") [WSelf
+      "_rows_dimension"; WVar "self"; WSelf "_cube_measures"] []).
+Proof. exact Proofs.GenAgreeWiring_C01.gen_wiring_StripeMeasures_weighted_counts. Qed.
+Print Assumptions C01_wiring_StripeMeasures_weighted_counts.
+
+Theorem C01_wiring_StripeBaseSecondOrderMeasure__unweighted_cube_counts :
+  wsrc_StripeBaseSecondOrderMeasure__unweighted_cube_counts = Some (WAttr (WSelf "_cube_measures")
+      "unweighted_cube_counts").
+Proof. exact Proofs.GenAgreeWiring_C01.gen_wiring_StripeBaseSecondOrderMeasure__unweighted_cube_counts. Qed.
+Print Assumptions C01_wiring_StripeBaseSecondOrderMeasure__unweighted_cube_counts.
+
+Theorem C01_wiring_StripeBaseSecondOrderMeasure__weighted_cube_counts :
+  wsrc_StripeBaseSecondOrderMeasure__weighted_cube_counts = Some (WAttr (WSelf "_cube_measures")
+      "weighted_cube_counts").
+Proof. exact Proofs.GenAgreeWiring_C01.gen_wiring_StripeBaseSecondOrderMeasure__weighted_cube_counts. Qed.
+Print Assumptions C01_wiring_StripeBaseSecondOrderMeasure__weighted_cube_counts.
+
+Theorem C01_wiring_StripeCubeMeasures_cube_means :
+  wsrc_StripeCubeMeasures_cube_means = Some (WCall (WAttr (WGlobal "_BaseCubeMeans") "factory") [WSelf
+      "_cube"; WSelf "_rows_dimension"] []).
+Proof. exact Proofs.GenAgreeWiring_C01.gen_wiring_StripeCubeMeasures_cube_means. Qed.
+Print Assumptions C01_wiring_StripeCubeMeasures_cube_means.
+
+Theorem C01_wiring_StripeCubeMeasures_cube_medians :
+  wsrc_StripeCubeMeasures_cube_medians = Some (WCall (WAttr (WGlobal "_BaseCubeMedians") "factory")
+      [WSelf "_cube"; WSelf "_rows_dimension"] []).
+Proof. exact Proofs.GenAgreeWiring_C01.gen_wiring_StripeCubeMeasures_cube_medians. Qed.
+Print Assumptions C01_wiring_StripeCubeMeasures_cube_medians.
+
+Theorem C01_wiring_StripeCubeMeasures_cube_stddev :
+  wsrc_StripeCubeMeasures_cube_stddev = Some (WCall (WAttr (WGlobal "_BaseCubeStdDev") "factory")
+      [WSelf "_cube"; WSelf "_rows_dimension"] []).
+Proof. exact Proofs.GenAgreeWiring_C01.gen_wiring_StripeCubeMeasures_cube_stddev. Qed.
+Print Assumptions C01_wiring_StripeCubeMeasures_cube_stddev.
+
+Theorem C01_wiring_StripeCubeMeasures_cube_sum :
+  wsrc_StripeCubeMeasures_cube_sum = Some (WCall (WAttr (WGlobal "_BaseCubeSums") "factory") [WSelf
+      "_cube"; WSelf "_rows_dimension"] []).
+Proof. exact Proofs.GenAgreeWiring_C01.gen_wiring_StripeCubeMeasures_cube_sum. Qed.
+Print Assumptions C01_wiring_StripeCubeMeasures_cube_sum.
+
+Theorem C01_wiring_StripeCubeMeasures_unweighted_cube_counts :
+  wsrc_StripeCubeMeasures_unweighted_cube_counts = Some (WCall (WAttr (WGlobal "_BaseCubeCounts")
+      "factory") [WIf (WCmp "is not" (WAttr (WSelf "_cube") "unweighted_valid_counts") (WNone))
+      (WAttr (WSelf "_cube") "unweighted_valid_counts") (WAttr (WSelf "_cube") "unweighted_counts");
+      WSelf "_rows_dimension"; WSelf "_ca_as_0th"; WSelf "_slice_idx"] []).
+Proof. exact Proofs.GenAgreeWiring_C01.gen_wiring_StripeCubeMeasures_unweighted_cube_counts. Qed.
+Print Assumptions C01_wiring_StripeCubeMeasures_unweighted_cube_counts.
+
+Theorem C01_wiring_StripeCubeMeasures_weighted_cube_counts :
+  wsrc_StripeCubeMeasures_weighted_cube_counts = Some (WCall (WAttr (WGlobal "_BaseCubeCounts")
+      "factory") [WIf (WCmp "is not" (WAttr (WSelf "_cube") "weighted_valid_counts") (WNone)) (WAttr
+      (WSelf "_cube") "weighted_valid_counts") (WAttr (WSelf "_cube") "counts"); WSelf
+      "_rows_dimension"; WSelf "_ca_as_0th"; WSelf "_slice_idx"] []).
+Proof. exact Proofs.GenAgreeWiring_C01.gen_wiring_StripeCubeMeasures_weighted_cube_counts. Qed.
+Print Assumptions C01_wiring_StripeCubeMeasures_weighted_cube_counts.
+
+End Wiring_C01.
+(* ---- WIRING-APPENDIX:END ---- *)
